@@ -210,6 +210,28 @@ theorem eff_absent_consults (c : Cfg) (m : OptMap) (spec gen : Name) (opts : Kvs
     effSpecific c m spec gen opts = some o := by
   simp [effSpecific, h, hm, ho]
 
+/-! ## per-position grammar of `trivia` -/
+
+/-- Acceptance of a `trivia` value implies that EVERY position matches its OWN grammar: a lone value and the first of
+    two the leading grammar, the only element of a 1-tuple and the second of two the trailing grammar; longer tuples are
+    never accepted. -/
+theorem trivia_positions :
+    (∀ t, checkTrivia (.one t) = true → leadOk t = true) ∧
+    (∀ t, checkTrivia (.tup [t]) = true → trailOk t = true) ∧
+    (∀ t0 t1, checkTrivia (.tup [t0, t1]) = true → leadOk t0 = true ∧ trailOk t1 = true) ∧
+    (∀ t0 t1 t2 r, checkTrivia (.tup (t0 :: t1 :: t2 :: r)) = false) := by
+  refine ⟨fun t h => h, fun t h => h, fun t0 t1 h => ?_, fun _ _ _ _ => rfl⟩
+  simpa [checkTrivia] using h
+
+/-- With the extracted token table: 'line' is a trailing-only word: alone or as the LEADING element it is rejected
+    whatever stands in the trailing position, and it is accepted in the trailing positions. -/
+theorem real_trivia_line_is_trailing_only :
+    checkTrivia (.one (realTrivTok Pfst.Gen.Options.trivLine)) = false ∧
+    ((List.range Pfst.Gen.Options.trivTokens.length).all fun j =>
+      !checkTrivia (.tup [realTrivTok Pfst.Gen.Options.trivLine, realTrivTok j])) = true ∧
+    checkTrivia (.tup [realTrivTok Pfst.Gen.Options.trivLine]) = true ∧
+    checkTrivia (.tup [realTrivTok 0, realTrivTok Pfst.Gen.Options.trivLine]) = true := by decide
+
 /-! ## nested option dicts and memoised reads -/
 
 /-- A phase that was given a dict - the EMPTY dict included - never consults the call's top-level options: whatever
